@@ -16,7 +16,6 @@ from typing import Any
 
 import numpy as np
 from multimethod import multimethod
-from scipy.linalg import sqrtm
 
 from lightworks.sdk.state import State
 
@@ -42,16 +41,19 @@ def state_fidelity(rho: np.ndarray, rho_exp: np.ndarray) -> float:
         float : The calculated fidelity value.
 
     """
+    rho = np.array(rho)
     rho_exp = np.array(rho_exp)
-    rho_root = sqrtm(np.array(rho))
-    if rho_root.shape != rho_exp.shape:
+    if rho.shape != rho_exp.shape:
         msg = (
             "Mismatch in dimensions between provided density matrices, "
-            f"{rho_root.shape} & {rho_exp.shape}."
+            f"{rho.shape} & {rho_exp.shape}."
         )
         raise ValueError(msg)
-    inner = rho_root @ rho_exp @ rho_root
-    return abs(np.trace(sqrtm(inner)))
+    # tr(sqrt(sqrt(rho) @ rho_exp @ sqrt(rho))) is the sum of the square roots
+    # of the eigenvalues of rho @ rho_exp. This avoids taking matrix square
+    # roots of rank-deficient density matrices, on which sqrtm can fail.
+    eigvals = np.linalg.eigvals(rho @ rho_exp)
+    return abs(np.sum(np.emath.sqrt(eigvals)))
 
 
 def process_fidelity(choi: np.ndarray, choi_exp: np.ndarray) -> float:
